@@ -423,6 +423,12 @@ class FunctionGuards:
                 direct.setdefault(tgt, set()).add("contig")
             if tgt and cn in ALLOC:
                 direct.setdefault(tgt, set()).update({"contig", "shape", "dtype"})
+            # X = f(Y[..., idx]) : the last axis of X has exactly len(idx) entries (the width C is told)
+            for x in [a.value] + list(a.value.args[:1]):
+                if isinstance(x, ast.Subscript) and isinstance(x.slice, ast.Tuple) and len(x.slice.elts) == 2 \
+                        and isinstance(x.slice.elts[0], ast.Constant) and x.slice.elts[0].value is Ellipsis \
+                        and isinstance(x.slice.elts[1], (ast.Name, ast.Attribute)) and tgt:
+                    direct.setdefault(tgt, set()).add("shape[-1]")
             has_dtype = any(k.arg == "dtype" for k in a.value.keywords) or (
                 cn in MAKE_CONTIG | ORDERED_CTORS and len(a.value.args) >= 2)
             if tgt and cn in MAKE_CONTIG | ORDERED_CTORS and has_dtype:
